@@ -179,7 +179,8 @@ def values_for(kind: str, i: int, d: Path) -> tuple[Any, str, Any, Any]:
         v = [1.25, 2.5, 3.75][i]
         return v, str(v), str(v), v
     if k == "str":
-        v = ["aa", "bb", "cc"][i]
+        # free text is taken as it is given - quotes and blanks included - whichever source it comes from
+        v = ["aa", '"b b"', "'cc' x"][i]
         return v, v, v, v
     if k == "path":
         v = d / ["p1", "p2", "p3"][i]
@@ -212,8 +213,20 @@ def nested(section: str, name: str, value: Any) -> dict[str, Any]:
     return cfg
 
 
-def parse(command: Any, args: list[str], env: dict[str, str], file_cfg: dict[str, Any] | str) -> tuple[str, Any, str]:
-    """file_cfg: the content of gallia.toml as nested dict, or as TOML text"""
+_TOKENS: set[str] = set()
+
+
+def command_tokens() -> set[str]:
+    """every word that names a command or a command group somewhere in the tree"""
+    if not _TOKENS:
+        for n, _ in flat_commands():
+            _TOKENS.update(n.split())
+    return _TOKENS
+
+
+def parse(command: Any, args: list[str], env: dict[str, str], file_cfg: dict[str, Any] | str, tree_path: list[str] | None = None) -> tuple[str, Any, str]:
+    """file_cfg: the content of gallia.toml as nested dict, or as TOML text. With tree_path the arguments go through the parser of
+    the whole command tree, as on the real command line (`gallia <group> .. <command> <args>`)."""
     from gallia.cli.gallia import _create_parser_from_command
     from gallia.config import Config
     from gallia.pydantic_argparse import ArgumentParser
@@ -236,6 +249,14 @@ def parse(command: Any, args: list[str], env: dict[str, str], file_cfg: dict[str
                     return "exc:harness", None, f"gallia.toml not used: {used}"
             else:
                 config = Config()
+            if tree_path is not None:
+                from gallia.cli.gallia import create_parser, get_command
+                from gallia.plugins.plugin import load_commands
+
+                if not file_cfg:
+                    os.environ["GALLIA_CONFIG"] = os.devnull  # no stray gallia.toml of the working directory
+                _, cfg_t = create_parser(load_commands()).parse_typed_args(tree_path + args)
+                return "ok", get_command(cfg_t).config, ""
             model, extra, _ = _create_parser_from_command(command, config, {})
             p = ArgumentParser(model=model, extra_defaults=extra, prog="gallia")
             _, cfg = p.parse_typed_args(args)
@@ -461,6 +482,17 @@ def check_cell(name: str, command: Any, cell: dict[str, Any], subset: tuple[bool
         got = str(got)
     if got != expected:
         out.append((f"C18/precedence/wrong-value/{src}/{kind.rstrip('?')}", f"{ctx}: effective value {got!r}, expected {expected!r}"))
+    if not out and (attr in command_tokens() or (len(name) + len(attr) + rot) % 11 == 0):
+        # the same cell through the parser of the whole command tree (options that share their name with a command, and a sample
+        # of the others): the sibling commands must not get in the way
+        st_t, cfg_t, err_t = parse(command, args, envd, filed, tree_path=name.split())
+        if st_t != "ok":
+            out.append((f"C18/precedence/full-command-line/rejected/{src}", f"gallia {name} ..: {ctx}: {st_t} {err_t[-300:]}"))
+        else:
+            got_t = getattr(cfg_t, attr)
+            got_t = Path(got_t) if kind.startswith("path") and got_t is not None else str(got_t) if kind.startswith("target") and got_t is not None else got_t
+            if got_t != expected:
+                out.append((f"C18/precedence/full-command-line/wrong-value/{src}", f"gallia {name} ..: {ctx}: effective value {got_t!r}, expected {expected!r}"))
     # round trip of the stored configuration
     try:
         dumped = cfg.model_dump_json()
